@@ -143,7 +143,12 @@ def child_detect_faults(job):
     for fs in job["faults"]:
         faults += expand(fs, dbn)
     blobs = [apply_fault(f, dbn) for f in faults]
-    res = run_detect_batch({"blobs": blobs})["results"]
+    if job.get("order") == "reversed":
+        # same blobs, opposite order (and another hash seed): a sniffer whose answer depends on what it was
+        # shown before, or on hash order, gives a different result vector
+        res = run_detect_batch({"blobs": blobs[::-1]})["results"][::-1]
+    else:
+        res = run_detect_batch({"blobs": blobs})["results"]
     anomalies = []
     by_kind = {}
     sig = []
@@ -158,9 +163,13 @@ def child_detect_faults(job):
         tag = classify(r, b)
         if tag is not None:
             anomalies.append({"fault": f, "blob": b if len(b) <= 4000 else b[:4000], "blob_len": len(b), "tag": tag, "result": r})
-    return {"n": len(blobs), "by_kind": by_kind, "anomalies": anomalies[:50], "n_anomalies": len(anomalies),
-            "digest": canon.digest("\n".join(sig)), "accepted": accepted, "multi_accepted": multi,
-            "distinct_outcomes": sorted(set(sig))[:200]}
+    out = {"n": len(blobs), "by_kind": by_kind, "anomalies": anomalies[:50], "n_anomalies": len(anomalies),
+           "digest": canon.digest("\n".join(sig)), "accepted": accepted, "multi_accepted": multi,
+           "distinct_outcomes": sorted(set(sig))[:200]}
+    if job.get("want_sig"):
+        out["sig"] = sig
+        out["blobs_for_sig"] = [b if len(b) <= 4000 else b[:4000] for b in blobs] if job.get("want_blobs") else None
+    return out
 
 
 # ---------------------------------------------------------------------- benign sets
@@ -227,6 +236,25 @@ def work(args):
         res = ZP.submit(seed, {"kind": "pipeline_batch", "pipelines": args["pipelines"]}, timeout=300)["results"]
         return {"kind": "pipelines", "pipelines": args["pipelines"], "results": res}
     res = ZP.submit(seed, {"kind": "detect_faults", "docs": args["docs"], "faults": args["faults"]}, timeout=600)
+    # consistency: the same blobs in the opposite order in a child of another hash seed
+    other = args.get("other_hash_seed")
+    if other is not None:
+        rev = ZP.submit(other, {"kind": "detect_faults", "docs": args["docs"], "faults": args["faults"], "order": "reversed"},
+                        timeout=600)
+        res["order_checked"] = res["n"]
+        if rev["digest"] != res["digest"]:
+            a = ZP.submit(seed, {"kind": "detect_faults", "docs": args["docs"], "faults": args["faults"], "want_sig": True,
+                                 "want_blobs": True}, timeout=600)
+            b = ZP.submit(other, {"kind": "detect_faults", "docs": args["docs"], "faults": args["faults"], "order": "reversed",
+                                  "want_sig": True}, timeout=600)
+            for i, (x, y) in enumerate(zip(a["sig"], b["sig"])):
+                if x != y:
+                    blob = a["blobs_for_sig"][i]
+                    res["anomalies"].append({"fault": ["order"], "blob": blob, "blob_len": len(blob),
+                                             "order_job": {"docs": args["docs"], "faults": args["faults"], "seeds": [seed, other]},
+                                             "tag": "inconsistent: the same string sniffed in another order / under another hash seed gives %s instead of %s" % (y, x),
+                                             "result": [x, y], "no_minimise": True})
+                    break
     res["kind"] = "faults"
     res["job"] = {"faults": args["faults"], "docnames": sorted(args["docs"])}
     return res
@@ -275,6 +303,18 @@ def write_replay(kind, body):
 def replay(body, path):
     zp = ZygotePool([body.get("hash_seed", 0)])
     try:
+        if body["what"] == "order":
+            oj = body["order_job"]
+            zp.close()
+            zp = ZygotePool(sorted(set(oj["seeds"])))
+            a = zp.submit(oj["seeds"][0], {"kind": "detect_faults", "docs": oj["docs"], "faults": oj["faults"]}, timeout=600)
+            b = zp.submit(oj["seeds"][1], {"kind": "detect_faults", "docs": oj["docs"], "faults": oj["faults"], "order": "reversed"},
+                          timeout=600)
+            print("replay: forward digest %s, reversed/other-seed digest %s" % (a["digest"], b["digest"]))
+            if a["digest"] != b["digest"]:
+                print("VIOLATION property=C20 replay=%s" % path)
+                sys.exit(1)
+            sys.exit(0)
         if body["what"] == "detect":
             r = zp.submit(body.get("hash_seed", 0), {"kind": "detect_batch", "blobs": [body["blob"]]})["results"][0]
             tag = classify(r, body["blob"])
@@ -467,6 +507,7 @@ def _run(seed, tier, a, t0, evidence_path):
         for k, j in enumerate(jobs):
             j["kind"] = "faults"
             j["hash_seed"] = hseeds[k % len(hseeds)]
+            j["other_hash_seed"] = hseeds[(k + 1) % len(hseeds)]
             futs.append(ex.submit(work, j))
         deadline = t0 + budget
         for f in futs:
@@ -508,8 +549,12 @@ def _run(seed, tier, a, t0, evidence_path):
             seen[key] = 1
             if len(seen) > 12:
                 break
-            if an["what"] == "detect":
-                blob = minimise_blob(zp, 0, an["blob"], an["tag"]) if an["blob_len"] == len(an["blob"]) else an["blob"]
+            if an["what"] == "detect" and an.get("order_job"):
+                path = write_replay("order", {"order_job": an["order_job"], "tag": an["tag"], "blob": an["blob"]})
+                desc = "detect_format(%r): %s" % (an["blob"][:80], an["tag"])
+                kf = None
+            elif an["what"] == "detect":
+                blob = minimise_blob(zp, 0, an["blob"], an["tag"]) if (an["blob_len"] == len(an["blob"]) and not an.get("no_minimise")) else an["blob"]
                 path = write_replay("detect", {"blob": blob, "tag": an["tag"], "fault": an["fault"], "hash_seed": 0,
                                                "original_blob_len": an["blob_len"]})
                 desc = "detect_format(%r) %s" % (blob[:80], an["tag"])
